@@ -316,6 +316,8 @@ def unbound_locals(ctx, rule, module_prefixes, frozen):
 
 
 FROZEN_UNBOUND = {
+    ('nbdime.vcs.hg.diff:main', 'ret'): 'mercurial integration, outside the listed properties (thorough sweep only): `ret` is unbound when the directory diff yields nothing',
+    ('nbdime.vcs.hg.diffweb:main', 'ret'): 'mercurial integration, outside the listed properties (thorough sweep only)',
     ('nbdime.merging.decisions:MergeDecisionBuilder.onesided', 'action'):
         'the two asserts above establish that exactly one of local_diff / remote_diff is non-empty, so one arm of the if/elif runs',
     ('nbdime.merging.generic:_merge_lists', 'thediff'):
